@@ -26,7 +26,8 @@ Sched/HeaderOps.v or of a function of Sched/Header.v / Sched/Launcher.v:
   numbers        int(v) (may raise), +=, %=, +, *, %, <, >, ==, `x or 0`, len(l),
                  ceil(float(t) / k), int(z / k), "{:02d}:{:02d}".format(a, b);
                  `if c: <logging only>` keeps the exceptions of c, short-circuit respected
-  regex          list(re.finditer(self.launcher_regex, s)), m.group("alloc"), m.group(),
+  regex          re.sub(r"\\s", "_", t) (exactly; the \\s set is T-data, Gen/HeaderData.v py_space_points),
+                 list(re.finditer(self.launcher_regex, s)), m.group("alloc"), m.group(),
                  re.search(self.legacy_alloc|node_alloc|task_alloc, s),
                  `if m: m = m.group(..)`
   lists          [a, b], l += [..], l.append(e), l[i]; message lists (`msg`) keep only
@@ -434,6 +435,15 @@ def call(cx, e, binds):
             cx.bad(e, "re.search in a %s" % ty)
         fn, rt = REGEX[e.args[0].attr]
         return "%s %s" % (fn, atom(v)), rt
+    # re.sub(r"\s", "_", t): exactly this pattern and replacement, no count / flags
+    if isinstance(f.value, ast.Name) and f.value.id == "re" and f.attr == "sub" and "re" not in cx.env:
+        if len(e.args) != 3 or e.keywords or not const_str(e.args[0]) or e.args[0].value != "\\s" or \
+                not const_str(e.args[1]) or e.args[1].value != "_":
+            cx.bad(e, "re.sub other than re.sub(r\"\\s\", \"_\", t)")
+        v, ty = ex(cx, e.args[2], binds)
+        if ty != "str":
+            cx.bad(e, "re.sub in a %s" % ty)
+        return "subst_ws %s" % atom(v), "str"
     if isinstance(f.value, ast.Attribute) and isinstance(f.value.value, ast.Name) and f.value.value.id == "os" and \
             f.value.attr == "path" and f.attr == "join" and len(e.args) == 2 and \
             isinstance(e.args[0], ast.Name) and e.args[0].id == "ws_path":
